@@ -429,6 +429,16 @@ Proof.
   apply Permutation_sym. apply build_match; [exact Hall|apply hist_live_nodup; exact Hok].
 Qed.
 
+(* ... and = rebuilt from the live set inserted in ANY order *)
+Theorem hist_match_rebuild_perm ops rs q : hist_ok [] ops -> Forall ok_route rs -> Permutation (live ops) rs ->
+  Permutation (rmatch q (rrun' ops rnew)) (rmatch q (rbuild lower eng valid ic_host ic_path always rs)).
+Proof.
+  intros Hok Hall Hperm. pose proof (rrun_refines ops rnew [] rrepr_new Hok) as HR.
+  eapply Permutation_trans; [apply (rmatch_spec _ rs); eapply rrepr_perm; [exact HR|exact Hperm]|].
+  apply Permutation_sym, build_match; [exact Hall|].
+  eapply Permutation_NoDup; [apply Permutation_map; exact Hperm|apply hist_live_nodup; exact Hok].
+Qed.
+
 (* ---- C12: cache warm-up at any point is invisible ---- *)
 Theorem cache_invisible R L limit q : rrepr R L -> Permutation (rmatch q (rcache limit R)) (rmatch q R).
 Proof.
